@@ -3,6 +3,7 @@ From Coq Require Import List String.
 From VQ.Gen Require Import w_simvq.
 Import ListNotations.
 Open Scope string_scope.
-Lemma pin_w_simvq : w_simvq =
+Definition pinned_w_simvq : list string :=
   [].
+Lemma pin_w_simvq : w_simvq = pinned_w_simvq.
 Proof. reflexivity. Qed.
